@@ -47,7 +47,7 @@ type zzvWaitingPod struct {
 	m  *zzvMember
 }
 
-func (w *zzvWaitingPod) GetPod() *corev1.Pod          { return w.m.pod }
+func (w *zzvWaitingPod) GetPod() *corev1.Pod         { return w.m.pod }
 func (w *zzvWaitingPod) GetPendingPlugins() []string { return []string{Name} }
 func (w *zzvWaitingPod) Allow(pluginName string) {
 	zzverif.Assert(w.fw.inAllow, "waiting pods are released only by AllowGangGroup after a successful Permit")
@@ -173,6 +173,9 @@ func (s *zzvSim) unreserve(m *zzvMember, failedMember bool) {
 					got = true
 				}
 			}
+			if got {
+				zzverif.Reach("waiting-member-rejected-in-strict-mode")
+			}
 			zzverif.Assert(zzverif.Or(relaxed, got), "in strict mode a failed or rolled-back member causes all waiting members of the group to be rejected")
 		}
 	}
@@ -294,6 +297,7 @@ func ZzvC04Events() {
 			zzverif.Assert(zzverif.Iff(st == Success, sat), "Permit succeeds exactly when every gang of the group has its minimum number of members holding resources; otherwise the pod waits")
 			zzverif.Assert(st == Success || st == Wait, "Permit of a gang member either waits or succeeds")
 			if st == Success {
+				zzverif.Reach("permit-success")
 				s.fw.inAllow, s.fw.allowed = true, nil
 				s.mgr.AllowGangGroup(m.pod, s.fw, Name)
 				s.fw.inAllow = false
